@@ -1009,20 +1009,30 @@ func (area) Run(c *core.Ctx) error {
 			casePlanFixed(c, r)
 		case i == 7:
 			caseTimeFixed(c)
+		case i == 8:
+			caseNumbers(c)
+		case i == 9:
+			caseGlueFixed(c, r)
+		case i == 10:
+			caseWorker(c, r)
 		default:
 			switch k := r.Intn(100); {
-			case k < 45:
+			case k < 42:
 				caseSQL(c, r)
-			case k < 53:
+			case k < 50:
 				caseMetaSQL(c, r)
-			case k < 75:
+			case k < 69:
 				caseTrees(c, r)
-			case k < 90:
+			case k < 82:
 				caseMalformed(c, r)
-			case k < 93:
+			case k < 85:
 				caseIntervals(c, r)
-			default:
+			case k < 91:
 				caseDeterminism(c, r)
+			case k < 95:
+				caseWorker(c, r)
+			default:
+				caseGlue(c, r)
 			}
 		}
 	}
